@@ -98,6 +98,12 @@ def set_policy(sim, table, default):
     verif_rights.DEFAULT[0] = default
 
 
+STORAGE_VARIANTS = [None,
+                    {"storage": {"use_cache_subfolder_for_history": "True"}},
+                    {"storage": {"use_cache_subfolder_for_item": "True", "use_cache_subfolder_for_history": "True", "use_cache_subfolder_for_synctoken": "True"}},
+                    {"storage": {"use_mtime_and_size_for_item_cache": "True", "use_cache_subfolder_for_synctoken": "True"}}]
+
+
 def run_policy(ctx, rng, pid):
     permit_delete = rng.random() < 0.5
     permit_overwrite = rng.random() < 0.5
@@ -112,8 +118,11 @@ def run_policy(ctx, rng, pid):
         if root in (["u", "p"], ["v"], ["u", "new"]):
             extra.append({"method": "MKCALENDAR", "path": root + ["secret"] if root != ["u", "new"] else root, "props": [["D:displayname", "SECRET"]]})
     set_policy_needed = (table, default)
-    sim = davsim.Sim(ctx, permit_delete=permit_delete, permit_overwrite=permit_overwrite)
-    twin = davsim.Sim(Quiet(), permit_delete=permit_delete, permit_overwrite=permit_overwrite)
+    # where caches, histories and sync tokens live is part of the configuration space: relocated cache folders are keyed by the
+    # collection's path - two users' collections of the same name (/u/c1, /v/c1) must not share them
+    variant = STORAGE_VARIANTS[pid % len(STORAGE_VARIANTS)]
+    sim = davsim.Sim(ctx, conf=variant, permit_delete=permit_delete, permit_overwrite=permit_overwrite)
+    twin = davsim.Sim(Quiet(), conf=variant, permit_delete=permit_delete, permit_overwrite=permit_overwrite)
     try:
         verif_rights.TABLE.clear()
         verif_rights.DEFAULT[0] = "RrWwDO" if not permit_delete or not permit_overwrite else "RrWw"
@@ -122,7 +131,8 @@ def run_policy(ctx, rng, pid):
         build(sim, rng)
         build(twin, rng, extra)
         set_policy(sim, table, default)
-        case0 = {"policy": {"%s@/%s" % (u, "/".join(p)): v for (u, p), v in table.items()}, "default": default, "user": user,
+        case0 = {"storage_options": (variant or {}).get("storage", {}),
+                 "policy": {"%s@/%s" % (u, "/".join(p)): v for (u, p), v in table.items()}, "default": default, "user": user,
                  "permit_delete": permit_delete, "permit_overwrite": permit_overwrite, "hidden_roots": roots}
         known = []
         for i in range(rng.randint(4, 14)):
@@ -236,6 +246,7 @@ def report_channels(ctx, sim, twin, table, default, user, roots, case0):
     under the generated policy: object content, names and busy times of a collection appear only with `r` on it, and the answers for
     collections below a hidden root are those of the twin store (model-independent; the sequential model has no such requests)"""
     login = (user + ":pw") if user else None
+    twin_dump = twin.real_dump()
     for e in sim.real_dump():
         if not e["tag"] or not e["items"]:
             continue
@@ -253,7 +264,11 @@ def report_channels(ctx, sim, twin, table, default, user, roots, case0):
                 if 200 <= st < 300 and (shown or "SUMMARY:c" in text or "FN:c" in text or "FREEBUSY" in text):
                     ctx.violation("%s on %s shows %s although the policy gives %r no `r` there (permissions %r)"
                                   % (kind, cp, shown or "object content / busy times", user or "anonymous", perms), case)
-            if any(e["path"][:len(r_)] == r_ for r_ in roots):
+            # non-interference: the twin differs only inside subtrees hidden from this user, so wherever this collection is the same in
+            # both stores (or hidden itself) the answer must be the same - names or states of hidden collections must not leak through
+            # shared histories, caches or token files
+            same_in_twin = next((t for t in twin_dump if t["path"] == e["path"]), None) == e
+            if any(e["path"][:len(r_)] == r_ for r_ in roots) or (same_in_twin and roots):
                 st2, _, text2 = twin.app.request("REPORT", cp, body, login=login)
                 strip_tok = lambda t: __import__("re").sub(r"<(\w+:)?sync-token>[^<]*</(\w+:)?sync-token>", "", t)     # noqa: E731
                 if (st, strip_tok(text)) != (st2, strip_tok(text2)):
